@@ -1,0 +1,17 @@
+//go:build !verif
+
+package simhook
+
+import "context"
+
+// Enabled reports whether the simulation hooks are compiled in.
+const Enabled = false
+
+func Step(ctx context.Context, ast, env interface{})         {}
+func Yield(point string, obj interface{})                    {}
+func Await(point string, obj interface{}, ready func() bool) {}
+func BeforeBlock(point string, obj interface{}) interface{}  { return nil }
+func AfterBlock(handle interface{}, which string)            {}
+func Spawn(obj interface{}) interface{}                      { return nil }
+func TaskStart(handle interface{})                           {}
+func TaskEnd(handle interface{})                             {}
